@@ -406,9 +406,11 @@ def resolveStep (processed : List (Nat × Nat)) (final : List M) (cand : M) : Li
 def variantKeys (A : Acr) (search : Bytes) (styles : List Style) : List Bytes :=
   styles.map (fun st => toStyle A (parse A search) st)
 
-/-- boundary-checked exact hits; the exact pass is skipped for a single-word search with a single style -/
-def exactSpansOf (content search : Bytes) (variants : List Bytes) (styles : List Style) : List (Nat × Nat) :=
-  let singleWord := !(contains search 95 || contains search 45 || contains search 46 || contains search 32)
+/-- boundary-checked exact hits; the exact pass is skipped for a single-word search with a single style, where
+    "single word" = typed without separators AND tokenised to fewer than two words (commit 1fd3fe0: `fooBar` is two) -/
+def exactSpansOf (A : Acr) (content search : Bytes) (variants : List Bytes) (styles : List Style) : List (Nat × Nat) :=
+  let singleWord := !(contains search 95 || contains search 45 || contains search 46 || contains search 32) &&
+    decide ((parse A search).length < 2)
   if singleWord && styles.length == 1 then [] else
     (scanExact variants 0 0 content).filter (fun (s, e) =>
       isBoundary (content.take s) ((content.drop s).take (e - s)) (content.drop e))
@@ -444,7 +446,7 @@ def compoundOf (A : Acr) (content search replace : Bytes) (styles : List Style) 
 
 /-- `find_enhanced_matches` with `additional_lines = None`; `variants` = keys of the variant table -/
 def findEnhanced (A : Acr) (content search replace : Bytes) (variants : List Bytes) (styles : List Style) : List M :=
-  let spans := exactSpansOf content search variants styles
+  let spans := exactSpansOf A content search variants styles
   let exactMs := exactMsOf content spans
   let compMs := (identsOf styles content exactMs).filterMap (compoundOf A content search replace styles spans)
   (sortM (exactMs ++ compMs)).foldl (resolveStep spans) []
